@@ -429,12 +429,11 @@ func (pkgGen *HttpPackageGenerator) genRouter(pkg *HttpPackage, root *RouterNode
 	if pkgGen.SnakeStyleMiddleware { // unique middleware name for SnakeStyleMiddleware
 		mws := []string{}
 		hook := func(layer int, node *RouterNode) error {
-			if len(node.Children) == 0 {
-				return nil
-			}
 			groupMwName := node.GroupMiddleware
 			handlerMwName := node.HandlerMiddleware
-			if len(groupMwName) != 0 {
+			// (a node without children has no group, but the middleware function of its
+			// handler is generated like any other and needs a name of its own)
+			if len(node.Children) != 0 && len(groupMwName) != 0 {
 				mws, groupMwName = appendMw(mws, groupMwName)
 			}
 			if len(handlerMwName) != 0 {
